@@ -7,6 +7,7 @@ checks = {
  "C04": ("pipeline-sim", "4 (C04)", "deterministic simulation: producers stalled after every position with quiescence detection (causality: values delivered before later inputs exist cannot depend on them); EOF-at-cut and altered-suffix differential runs for the positions that are not prompt"),
  "C05": ("pipeline-sim", "4 (C05)", "deterministic simulation: seeded schedules + end-of-stream around the strategy warm-up; count/alphabet/Hold-through-warm-up oracle on the action stream"),
  "C09": ("pipeline-sim", "4 (C09)", "deterministic simulation: several Compute/Report calls on one instance, sequential or interleaved stage by stage by the seeded controller; oracle = fresh-instance results; (race clause: Go race detector on free-running runs of the same workloads)"),
+ "C10": ("io-sim", "4 (C10)", "deterministic simulation: operation histories against three repository implementations (real SQLRepository + database/sql over a simulated driver, real files, in-memory) with the goroutines each call spawns under the seeded controller; reference map model stepped operation by operation"),
  "C11": ("io-sim", "4 (C11)", "deterministic simulation: histories of write/append/append-or-write on one path with row producers and reader goroutines under the seeded controller, fragmenting readers; model-file oracle after every operation, bit-exact"),
  "C19": ("io-sim", "4 (C19)", "deterministic simulation with fault injection: documents with drawn byte-level faults delivered in drawn fragments with read errors at any offset, scripted HTTP statuses / transport errors / body errors, unreadable files; captured panics, exact census, independent reference decode of the well-formed prefix"),
  "C14": ("pipeline-sim", "4 (C14)", "deterministic simulation: the real template renders the report as a lock-step single-task consumer of all column channels under seeded schedules; closed-channel probes on column reads, reflection drain of the column channels after the last row, exact census, rendered rows compared with the strategy's own Compute/Outcome"),
@@ -17,7 +18,6 @@ na = {
  "C06": "pure function of the OHLCV values (decision rule on documented fields); nothing a simulator controls can change it",
  "C07": "pure transducers over action words and closing prices; their liveness with real sub-strategies is covered by C03/C05",
  "C08": "sequential state machine over two value sequences; nothing concurrent, timed or faulty decides it",
- "C10": "not claimed yet in this revision (check under construction)",
  "C12": "not claimed yet in this revision (check under construction)",
  "C13": "not claimed yet in this revision (check under construction)",
  "C15": "range/ordering of indicator values is a pure function of the inputs",
